@@ -3,12 +3,15 @@
 /verif/seeded/<label>/meta.json: confirmed.kvlint_reports, confirmed.kvlint_rechecked_at.
 
 usage: tools/seed_recheck.py [label ...]      (default: all)
-Applies each patch in a scratch worktree of /repo HEAD under /tmp (removed afterwards); at most 3 checks run
-at a time (each loads the whole program)."""
+Applies each patch in a scratch worktree of /repo HEAD under /tmp (removed afterwards); at most 5 checks run
+at a time (each loads the whole program). With --own only the seed's own property and the properties that reported
+it at the last full run are re-checked (a fifth of the work; new cross-property reports are not discovered)."""
 import json, glob, os, re, subprocess, sys
 from concurrent.futures import ThreadPoolExecutor
 ENV = dict(os.environ, GOFLAGS="-mod=mod", GOPROXY="off", GOSUMDB="off", GOTOOLCHAIN="local", GOWORK="off",
            PATH="/opt/veriftools/go1.26.8/bin:" + os.environ["PATH"])
+OWN = "--own" in sys.argv  # only the seed's own property and the properties that reported it before
+sys.argv = [a for a in sys.argv if a != "--own"]
 labels = sys.argv[1:] or [os.path.basename(d.rstrip('/')) for d in sorted(glob.glob('/verif/seeded/*/'))]
 ids = [l.split()[0] for l in subprocess.check_output("/verif/bin/kvlint list", shell=True, text=True).split("\n") if l.strip()]
 head = subprocess.check_output("git -C /repo rev-parse --short HEAD", shell=True, text=True).strip()
@@ -25,12 +28,15 @@ try:
             p = subprocess.run("/verif/bin/kvlint check %s --tier quick --no-write --repo %s --verif /verif" % (i, wt), shell=True, stdout=subprocess.PIPE, stderr=subprocess.STDOUT, text=True, env=ENV)
             return i, p.stdout
         caught = {}
+        m = json.load(open(d + "/meta.json"))
+        todo = ids
+        if OWN:
+            todo = sorted(set([m["property"]] + list(m["confirmed"].get("kvlint_reports", {}).keys())))
         with ThreadPoolExecutor(max_workers=5) as ex:
-            for i, o in ex.map(run, ids):
+            for i, o in ex.map(run, todo):
                 reps = re.findall(r"rule=(\S+) verdict=(?:violation|undecided) construct=(\S+)", o)
                 if reps:
                     caught[i] = sorted({"%s %s" % (a, b) for a, b in reps})
-        m = json.load(open(d + "/meta.json"))
         m["confirmed"]["kvlint_reports"] = caught
         m["confirmed"]["kvlint_rechecked_at"] = head
         json.dump(m, open(d + "/meta.json", "w"), indent=1, ensure_ascii=False)
